@@ -165,6 +165,7 @@ def run(rng, tier, res=None):
                 msgs.append(f"purity == 1 is {pur == 1.0} but every predicted group single-class is {pure}")
             viol(msgs, meta)
     # normalize
+    nlines, nobs = [], []
     for case in range(ncases // 5):
         n = rng.randint(2, 12); d = rng.randint(1, 4)
         A = np.array([[rng.choice([rng.gauss(0, 3), float(rng.randint(-3, 3))]) for _ in range(d)] for _ in range(n)])
@@ -198,6 +199,11 @@ def run(rng, tier, res=None):
             line = f"norm {n} {ints(fb(v) for v in col)}"
             lines.append(line); obs.append(("TOL", [out[i][j] for i in range(n)])); metas.append({"column": col})
             res.add_case(line, nontrivial=True); res.hit("normalize_column")
+        if offset_col is None:
+            # the TRANSLATED normalize (Gen/NormImp.lean) on the whole matrix: which column's mean / deviation reaches which entry
+            nlines.append(f"gnorm {n} {d} {ints(fb(float(A[i][j])) for i in range(n) for j in range(d))}")
+            nobs.append((n, d, [[float(out[i][j]) for j in range(d)] for i in range(n)], [len({A[i][j] for i in range(n)}) == 1 for j in range(d)]))
+            res.hit("gen_normalize_matrix")
     # ---------- the GENERATED counting parts (Gen/MeasImp.lean + Model/PyMeas.lean's reading of numpy) against the real functions ----------
     glines, gobs, gmetas = [], [], []
 
@@ -270,6 +276,26 @@ def run(rng, tier, res=None):
             if segs:
                 res.disagreements.append({"stream": "measures", "case": k, "kind": "gmeas", "segments": segs, "input": l,
                                           "impl": str(a)[:300], "model": b[:300], "meta": gmetas[k]})
+    nmodel = run_driver(nlines, driver="DriverGen.lean", soft=True) if nlines else []
+    if nmodel is None:
+        res.disagreements.append({"stream": "measures", "case": 0, "kind": "gnorm", "segments": [0], "input": "(all)",
+                                  "impl": "-", "model": "DriverGen.lean does not run: " + str(getattr(run_driver, "last_error", ""))[-400:], "meta": {}})
+    else:
+        for k, (l, (n_, d_, out_, const_), b) in enumerate(zip(nlines, nobs, nmodel)):
+            toks = b.split()
+            bad = (b == "ERR" or len(toks) != n_ * d_)
+            if not bad:
+                vals = [struct.unpack("<d", struct.pack("<Q", int(t)))[0] for t in toks]
+                for i_ in range(n_):
+                    for j_ in range(d_):
+                        if const_[j_]:
+                            continue          # std 0: nan / inf on both sides, outside the claim
+                        x, y = out_[i_][j_], vals[i_ * d_ + j_]
+                        if not (abs(x - y) <= 1e-9 * max(1.0, abs(x))):
+                            bad = True
+            if bad:
+                res.disagreements.append({"stream": "measures", "case": k, "kind": "gnorm", "segments": [0], "input": l[:300],
+                                          "impl": str(out_)[:300], "model": b[:300], "meta": {}})
     # compare (normalize with tolerance: numpy's mean/std use pairwise summation)
     model = run_driver(lines)
     for k, (l, a, b) in enumerate(zip(lines, obs, model)):
